@@ -6,6 +6,7 @@ pub struct DenseVecStorage<T> { x: core::marker::PhantomData<T> }
 impl<T> UnprotectedStorage<T> for DenseVecStorage<T> {
     uninterp spec fn has(&self, id: Index) -> bool;
     uninterp spec fn val(&self, id: Index) -> T;
+    uninterp spec fn us_wf(&self) -> bool;
     open spec fn log(&self) -> Seq<ComponentEvent> { Seq::empty() }
     open spec fn ev_insert(&self, id: Index) -> Seq<ComponentEvent> { Seq::empty() }
     open spec fn ev_remove(&self, id: Index) -> Seq<ComponentEvent> { Seq::empty() }
